@@ -33,6 +33,13 @@ AddBlank == Pos <= MaxLines /\ Pos > 1 /\ page.body[Pos-1].k \in {"item", "cmt"}
 SkNext == AddSec \/ AddItem \/ AddCmt \/ AddBlank
 SkSpec == SkInit /\ [][SkNext]_wvars
 
+\* deep skeletons: up to MaxHdrs headers of any legal level sequence, each followed by exactly one undecorated item, so that
+\* what a note carries is exactly what its title, its enclosing headers - and nothing a closed sibling or cousin left behind - give it
+DeepSec  == \E l \in 1..4 : NHdrs < MaxHdrs /\ (IF Pos = 1 THEN TRUE ELSE page.body[Pos-1].k = "item") /\ CanOpen(l)
+                             /\ Consume(SecLine(l, Pos, Pos % 4 = 1), Today)
+DeepItem == Pos > 1 /\ page.body[Pos-1].k = "sec" /\ Consume(ItemLine(Pos, FALSE, FALSE), Today)
+DeepSpec == SkInit /\ [][DeepSec \/ DeepItem]_wvars
+
 Refines == RefinesSem(Today)
 \* the listener's idea of which header may open agrees with the tree's
 LegalAgrees == WellFormedPage(page)
